@@ -418,7 +418,3 @@ Proof.
     exists w. auto.
   - intros sid su b [].
 Qed.
-
-(* ------------------------------------------------------------------ *)
-(* well-formed initial stores: what the topic-creation code leaves behind *)
-Definition fresh_owner (s : store) : Prop := sinv s.
